@@ -8,7 +8,7 @@ import propbase
 ID = "C09"
 MODULE = "HttpcoreModel.Props.C09"
 THEOREMS = [f"Httpcore.C09.{n}" for n in ("idle_bound", "no_expired_left", "assigned_is_available_or_new", "reuse_first_available",
-                                           "close_reasons", "eviction_reason", "source_counts_idle_only",
+                                           "close_reasons", "idle_closed_only_for_reason", "eviction_reason", "source_counts_idle_only",
                                            "close_reasons_counterexample_107")]
 TRUSTED = [
     "Lean 4.33 kernel; axioms per theorem under coverage.theorems",
@@ -73,8 +73,11 @@ def run(ctx, driver):
                         reason = "surplus"
                     elif impl["created"] and len(impl["conns"]) == c["maxc"]:
                         reason = "room"      # evicted at the connection limit for a request that needed a new connection
+                held = {x for _r, _o, x in c["reqs"] if x is not None}
+                if reason is None and not s.idle and cid not in held:
+                    reason = "abandoned"     # not an idle connection (outside the property's sentence): neither idle nor held by a request
                 if reason is None:
-                    rec.fail("closed-without-reason", {"class": "idle-below-limit" if s.idle else "not-idle"}, payload)
+                    rec.fail("closed-without-reason", {"class": "idle-below-limit" if s.idle else "not-idle-but-held"}, payload)
             cur = [x for x in cur if x.cid != cid]
         # closed/expired ones examined earlier are dropped too (keep `cur` roughly in step)
         # reuse: a queued request with an available connection for its origin gets the first such one, nothing is created for it
